@@ -215,11 +215,42 @@ func mutationsFor(style string, rt *routeSpec) []string {
 	return m
 }
 
+// Identity-confusion mutations: credentials of two identities in one request. The
+// signature that is valid (if any) is produced with the secret of c.Ident ("signer");
+// c.Other is only named (its secret is never used). The oracle is unchanged: a backend
+// call is legitimate only if the signer is permitted.
+//   foreign-key        signer's signature, but the access key id named is the other identity's
+//   mix-hdr-presign    Authorization header by the signer + presign query parameters naming the other identity (bogus signature)
+//   mix-presign-hdr    presigned by the signer + Authorization header naming the other identity (bogus signature)
+//   mix-cross-presign  V4 presign by the signer + AWSAccessKeyId=other / V2 presign by the signer + X-Amz-Credential=other
+//   mix-chunk-signer   streaming seed signature by the signer, chunk signatures made with a key derived from the other's key id
+//   mix-form-v2key     V4-signed form of the signer + form field AWSAccessKeyId=other
+//   mix-form-v4cred    V2-signed form of the signer + form fields x-amz-credential/algorithm/date naming the other
+func confusionMutations(style string) []string {
+	switch style {
+	case "v4h", "v2h":
+		return []string{"foreign-key", "mix-hdr-presign"}
+	case "v4p", "v2p":
+		return []string{"foreign-key", "mix-presign-hdr", "mix-cross-presign"}
+	case "stream":
+		return []string{"foreign-key", "mix-chunk-signer"}
+	case "post4":
+		return []string{"foreign-key", "mix-form-v2key"}
+	case "post2":
+		return []string{"foreign-key", "mix-form-v4cred"}
+	}
+	return nil
+}
+
+func isConfusion(mut string) bool { return mut == "foreign-key" || strings.HasPrefix(mut, "mix-") }
+
 // mutation keeps the request validly signed (in the sense of the statement)?
 // (stale-date: a correct V4 header signature dated two days ago; the statement does not
 // speak about replay windows, so it counts as valid and its acceptance is only counted)
 func mutationValid(mut string) bool {
-	return mut == "none" || mut == "bad-chunk-sig" || mut == "stale-date"
+	// confusion mutations: whatever is valid in the request was made with the signer's secret,
+	// so the signer's rights decide (a gateway that refuses the mixture is only counted)
+	return mut == "none" || mut == "bad-chunk-sig" || mut == "stale-date" || isConfusion(mut)
 }
 
 // ------------------------------------------------------------------ servers
@@ -297,12 +328,13 @@ type caseSpec struct {
 	Style      string `json:"style"`
 	Mut        string `json:"mut"`
 	Ident      string `json:"ident,omitempty"`
+	Other      string `json:"other,omitempty"` // confusion mutations: the identity that is only named
 	SignBucket string `json:"sign_bucket,omitempty"` // tamper-bucket: bucket the signature was made for
 	NoBuckets  bool   `json:"no_buckets,omitempty"`  // stand-in answers "bucket does not exist"
 }
 
 func (c *caseSpec) key() string {
-	return fmt.Sprintf("%s/%s/%s/%s/%v/%s/%s/%s", c.Server, c.Route, c.Bucket, c.SrcBucket, c.VHost, c.Style, c.Mut, c.Ident)
+	return fmt.Sprintf("%s/%s/%s/%s/%v/%s/%s/%s/%s", c.Server, c.Route, c.Bucket, c.SrcBucket, c.VHost, c.Style, c.Mut, c.Ident, c.Other)
 }
 
 type expectation struct {
@@ -357,6 +389,8 @@ func expect(s *server, c *caseSpec) expectation {
 		e.Why = "expired"
 	case !e.Valid:
 		e.Why = "invalid-signature"
+	case !e.Permitted && isConfusion(c.Mut):
+		e.Why = "signer-not-permitted"
 	case !e.Permitted:
 		e.Why = "not-permitted"
 	}
@@ -394,11 +428,20 @@ func (w *world) build(c *caseSpec) (*http.Request, error) {
 	if id != nil {
 		ak, sk = id.AK, id.SK
 	}
+	otherAK := "AKOTHER0000000"
+	if o := s.byName[c.Other]; o != nil {
+		otherAK = o.AK
+	}
+	otherCred := otherAK + "/" + now.Format("20060102") + "/" + region + "/s3/aws4_request"
+	const bogusHex = "0123456789abcdef0123456789abcdef0123456789abcdef0123456789abcdef"
+	const bogusB64 = "Ym9ndXMtc2lnbmF0dXJlLWJvZ3U="
 	switch c.Mut {
 	case "wrong-secret":
 		sk += "x"
 	case "unknown-key":
 		ak, sk = "AKUNKNOWN000000", "some-secret"
+	case "foreign-key":
+		ak = otherAK // the signer's secret, the other identity's key id
 	}
 	signBucket := c.Bucket
 	if c.Mut == "tamper-bucket" && c.SignBucket != "" {
@@ -460,6 +503,13 @@ func (w *world) build(c *caseSpec) (*http.Request, error) {
 				pol := postPolicyDoc(signBucket, "", exp, nil)
 				form.fields = postFieldsV2(key, pol, ak, sk)
 			}
+			switch c.Mut {
+			case "mix-form-v2key":
+				form.fields = append(form.fields, [2]string{"AWSAccessKeyId", otherAK})
+			case "mix-form-v4cred":
+				form.fields = append(form.fields, [2]string{"x-amz-algorithm", "AWS4-HMAC-SHA256"},
+					[2]string{"x-amz-credential", otherCred}, [2]string{"x-amz-date", now.Format(iso8601)})
+			}
 			for i := range form.fields {
 				switch {
 				case c.Mut == "tamper-policy" && form.fields[i][0] == "policy":
@@ -495,6 +545,29 @@ func (w *world) build(c *caseSpec) (*http.Request, error) {
 	vhostBucket := ""
 	if c.VHost {
 		vhostBucket = signBucket
+	}
+	addQuery := func(kv ...string) {
+		q := req.URL.RawQuery
+		for i := 0; i+1 < len(kv); i += 2 {
+			if q != "" {
+				q += "&"
+			}
+			q += kv[i] + "=" + url.QueryEscape(kv[i+1])
+		}
+		req.URL.RawQuery = q
+	}
+	switch {
+	case c.Mut == "mix-hdr-presign" && c.Style == "v4h", c.Mut == "mix-cross-presign" && c.Style == "v2p":
+		kv := []string{"X-Amz-Credential", otherCred}
+		if c.Style == "v4h" {
+			kv = []string{"X-Amz-Algorithm", "AWS4-HMAC-SHA256", "X-Amz-Credential", otherCred, "X-Amz-Date", now.Format(iso8601),
+				"X-Amz-Expires", "3600", "X-Amz-SignedHeaders", "host", "X-Amz-Signature", bogusHex}
+		}
+		addQuery(kv...)
+	case c.Mut == "mix-hdr-presign" && c.Style == "v2h":
+		addQuery("AWSAccessKeyId", otherAK, "Expires", fmt.Sprint(now.Add(time.Hour).Unix()), "Signature", bogusB64)
+	case c.Mut == "mix-cross-presign" && c.Style == "v4p":
+		addQuery("AWSAccessKeyId", otherAK)
 	}
 	sendBody := body
 	switch c.Style {
@@ -532,7 +605,11 @@ func (w *world) build(c *caseSpec) (*http.Request, error) {
 		if c.Mut == "bad-chunk-sig" {
 			corrupt = 1
 		}
-		sendBody = streamingBody(body, 16, seedSignatureOf(req.Header.Get("Authorization")), sk, now, corrupt)
+		chunkSecret := sk
+		if c.Mut == "mix-chunk-signer" {
+			chunkSecret = "secret-derived-from-" + otherAK // never the other identity's real secret
+		}
+		sendBody = streamingBody(body, 16, seedSignatureOf(req.Header.Get("Authorization")), chunkSecret, now, corrupt)
 	case "none":
 		switch c.Mut {
 		case "bearer":
@@ -549,6 +626,12 @@ func (w *world) build(c *caseSpec) (*http.Request, error) {
 	}
 	// ---- mutations applied after signing
 	switch c.Mut {
+	case "mix-presign-hdr":
+		if c.Style == "v4p" {
+			req.Header.Set("Authorization", "AWS4-HMAC-SHA256 Credential="+otherCred+", SignedHeaders=host, Signature="+bogusHex)
+		} else {
+			req.Header.Set("Authorization", "AWS "+otherAK+":"+bogusB64)
+		}
 	case "tamper-header":
 		req.Header.Set("X-Amz-Meta-Verif", "verif-A") // differs from the signed value by case only
 	case "tamper-bucket":
@@ -715,6 +798,14 @@ func (w *world) judge(rec *caseRecord, calls []lib.BackendCall, status int, resp
 		} else {
 			r.Count("denied_without_backend_call", 1)
 		}
+		if isConfusion(c.Mut) {
+			if e.Allowed {
+				r.Count("confusion.refused_although_signer_permitted", 1)
+			} else {
+				r.Count("confusion.escalation_refused", 1)
+				r.Count("confusion.refused."+c.Style+"/"+c.Mut, 1)
+			}
+		}
 		return
 	}
 	if !e.Allowed {
@@ -734,6 +825,10 @@ func (w *world) judge(rec *caseRecord, calls []lib.BackendCall, status int, resp
 	}
 	if c.Mut == "stale-date" {
 		r.Count("stat.v4_header_signature_dated_2_days_ago_accepted", 1)
+	}
+	if isConfusion(c.Mut) {
+		r.Count("confusion.legit_reach_signer_permitted", 1)
+		r.Count("confusion.legit."+c.Style+"/"+c.Mut, 1)
 	}
 	// which buckets did the backend calls touch?
 	var id *identity
@@ -1005,6 +1100,74 @@ func (w *world) anonymousCases(srv string) []caseSpec {
 	return out
 }
 
+// confusionCases: route x signed style x confusion mutation, in two directions:
+// "escalate" — the signer is NOT permitted and the identity that is only named is;
+// "control"  — the signer is permitted and the named identity is not.
+func (w *world) confusionCases(rng *rand.Rand, srv string) []caseSpec {
+	s := w.servers[srv]
+	var out []caseSpec
+	for _, rt := range routes {
+		if rt.Name == "ListBuckets" || rt.Name == "NoRoute" {
+			continue // every authenticated identity may call ListBuckets: nothing to escalate to
+		}
+		var yes, no []*identity
+		for _, id := range s.idents {
+			if id.Name == "anonymous" {
+				continue
+			}
+			ok := permitted(id, rt, "b1")
+			if rt.Copy {
+				ok = ok && id.allows("Read", "b1")
+			}
+			if ok {
+				yes = append(yes, id)
+			} else if !permitted(id, rt, "b1") {
+				no = append(no, id)
+			}
+		}
+		if len(yes) == 0 || len(no) == 0 {
+			continue
+		}
+		for _, style := range signedStyles {
+			if !styleApplies(style, rt) {
+				continue
+			}
+			for _, mut := range confusionMutations(style) {
+				a, b := no[rng.Intn(len(no))], yes[rng.Intn(len(yes))]
+				base := caseSpec{Group: "confusion", Server: srv, Route: rt.Name, Bucket: "b1", Key: "k1", SrcBucket: "b1", Style: style, Mut: mut}
+				esc := base
+				esc.Ident, esc.Other = a.Name, b.Name
+				out = append(out, esc)
+				ctl := base
+				ctl.Ident, ctl.Other = b.Name, a.Name
+				out = append(out, ctl)
+				// the most privileged name to borrow
+				if b.Name != "admin" {
+					adm := base
+					adm.Ident, adm.Other = a.Name, "admin"
+					out = append(out, adm)
+				}
+				if rt.Name == "PostPolicy" {
+					// single route: every unpermitted signer, borrowing admin and one other writer
+					for _, a2 := range no {
+						for _, o := range []string{"admin", yes[rng.Intn(len(yes))].Name} {
+							e2 := base
+							e2.Ident, e2.Other = a2.Name, o
+							out = append(out, e2)
+						}
+					}
+					for _, b2 := range yes {
+						c2 := base
+						c2.Ident, c2.Other = b2.Name, no[rng.Intn(len(no))].Name
+						out = append(out, c2)
+					}
+				}
+			}
+		}
+	}
+	return out
+}
+
 func (w *world) randomCases(rng *rand.Rand, n int) []caseSpec {
 	var out []caseSpec
 	srvs := []string{"A", "B"}
@@ -1017,7 +1180,7 @@ func (w *world) randomCases(rng *rand.Rand, n int) []caseSpec {
 		if !styleApplies(style, rt) {
 			continue
 		}
-		muts := mutationsFor(style, rt)
+		muts := append(mutationsFor(style, rt), confusionMutations(style)...)
 		mut := muts[rng.Intn(len(muts))]
 		if rng.Intn(3) == 0 {
 			mut = "none"
@@ -1034,6 +1197,13 @@ func (w *world) randomCases(rng *rand.Rand, n int) []caseSpec {
 				continue
 			}
 			c.Ident = id.Name
+			if isConfusion(mut) {
+				o := ids[rng.Intn(len(ids))]
+				if o.Name == "anonymous" || o.Name == id.Name {
+					continue
+				}
+				c.Other = o.Name
+			}
 		}
 		if mut == "tamper-bucket" {
 			c.SignBucket = buckets[rng.Intn(len(buckets))]
@@ -1048,7 +1218,7 @@ func (w *world) randomCases(rng *rand.Rand, n int) []caseSpec {
 
 // ------------------------------------------------------------------ main
 
-const ruleText = "requests = route of registerRouter (22 bucket routes + ListBuckets + no-route) x auth style {V4 header, V4 presigned, V2 header, V2 presigned, streaming-V4, POST policy V4/V2, none} x mutation {none, wrong secret, unknown key, tampered signed header, signature made for another bucket/method/query, flipped/empty signature, expired presign/policy, tampered policy, bad chunk signature, streaming-sha256 header confusion, form content-type confusion, Bearer/Basic/empty/garbage Authorization} x identity (12 action sets incl. per-bucket, global, wildcard, Admin:bucket, none; anonymous with/without rights) x bucket (4) x addressing (path/virtual host), sent one at a time through the real S3 router; distinct = distinct (server, route, bucket, source bucket, addressing, style, mutation, identity); non-trivial = the request was sent and answered while the recording filer stand-in was observed. IAM: random policy documents (effects, action patterns, ARN shapes, NotAction/NotResource/Condition) through iamapi.GetActions."
+const ruleText = "requests = route of registerRouter (22 bucket routes + ListBuckets + no-route) x auth style {V4 header, V4 presigned, V2 header, V2 presigned, streaming-V4, POST policy V4/V2, none} x mutation {none, wrong secret, unknown key, tampered signed header, signature made for another bucket/method/query, flipped/empty signature, expired presign/policy, tampered policy, bad chunk signature, streaming-sha256 header confusion, form content-type confusion, Bearer/Basic/empty/garbage Authorization, identity confusion (signature by identity A while the key id / extra presign parameters / extra Authorization header / extra form credential fields / chunk signatures name identity B)} x identity (12 action sets incl. per-bucket, global, wildcard, Admin:bucket, none; anonymous with/without rights) x bucket (4) x addressing (path/virtual host), sent one at a time through the real S3 router; distinct = distinct (server, route, bucket, source bucket, addressing, style, mutation, identity); non-trivial = the request was sent and answered while the recording filer stand-in was observed. IAM: random policy documents (effects, action patterns, ARN shapes, NotAction/NotResource/Condition) through iamapi.GetActions."
 
 // main: the parent only starts the real run as a child process. Reason: the check
 // runs drivers under the race detector with halt_on_error=0, and a race report from
@@ -1178,6 +1348,8 @@ func main() {
 	// ---- 4. anonymous requests, with (B) and without (A) an anonymous identity
 	cases = append(cases, w.anonymousCases("A")...)
 	cases = append(cases, w.anonymousCases("B")...)
+	// ---- 4b. identity confusion: credentials of two identities mixed in one request
+	cases = append(cases, w.confusionCases(r.SubRng("c26-confusion-A"), "A")...)
 	// ---- 5. identities whose actions were produced by GetActions
 	for _, id := range identsI {
 		for _, rn := range []string{"GetObject", "PutObject", "ListObjectsV1", "PutObjectTagging", "PutBucket", "DeleteObject", "ListBuckets"} {
@@ -1269,6 +1441,9 @@ func main() {
 	sort.Strings(missing)
 	if len(missing) > 0 {
 		r.Inconclusive("no validly signed, permitted request reached the backend for: " + strings.Join(missing, ","))
+	}
+	if r.Counter("confusion.legit_reach_signer_permitted") == 0 || r.Counter("confusion.escalation_refused") == 0 {
+		r.Inconclusive("identity-confusion requests: no control reached the backend or no escalation attempt was observed")
 	}
 	if w.legitByStyle["none"] == 0 {
 		r.Inconclusive("no permitted anonymous request reached the backend")
